@@ -11,4 +11,21 @@ META = {
              "property quantifies over is finite and is covered completely, which is the strongest this technique can give.",
         note="Trusts the Go compiler/runtime; static membership only for Get() (other membership types relay numbers, see C10).",
     ),
+    "C17": dict(
+        technique="rapid property-based testing against a documented-default table, exact-rational oracle and textual-substitution oracle; native fuzz of the size parser",
+        text="Generated configurations (any subset of options explicitly set, env overrides, override maps, size spellings, placeholder "
+             "layouts) are pushed through the real ApplyDefaults / Get* / ResolveUnionIntOrStringValue / newDcpConfig and compared with "
+             "independent oracles written from README's configuration table. Sampling, not proof: tens of thousands (quick) to millions "
+             "(thorough) of cases, each non-trivial class measured.",
+        note="Oracle table hand-copied from README §Configuration and config/dcp_test.go; explicit zero values are treated as unset; "
+             "size magnitudes limited to where float64 == exact arithmetic; logging.level default not covered.",
+    ),
+    "C18": dict(
+        technique="exhaustive pair grid + rapid triples / round trips + native fuzz against a lexicographic tuple model",
+        text="All ordered pairs of an 896-tuple grid around the three gates are enumerated in every tier (trichotomy, antisymmetry, "
+             "agreement with tuple order, gate monotonicity and switch points); transitivity on rapid triples with generated near-ties; "
+             "format->parse round trip; malformed strings by rapid and coverage-guided fuzzing must return tuple-or-error.",
+        note="Gate expressions of dcp.go are replicated in the check (newDcp needs a live cluster); the serial-close gate is additionally "
+             "observed behaviourally through stream.NewStream. Wire-level DCP_CONTROL gating is not observed (no Layer C).",
+    ),
 }
